@@ -10,6 +10,8 @@ import GormModel.Lemmas.BindRetemplate
 import GormModel.Model.BindJoin
 import GormModel.Gen.Misc
 import GormModel.Gen.BindSites
+import GormModel.Model.BindApi
+import GormModel.Gen.BindApi
 namespace Gorm
 open Gorm.Bind
 
@@ -378,5 +380,170 @@ def modelKindCases : List (String × String × List String) := [
 ]
 
 theorem C01_kind_cases_model : Gen.kindCases.map (fun k => (k.fn, k.kinds, k.conds)) = modelKindCases := by decide
+
+
+/-! ### round 3: the `(text, args...)` entry points never drop their arguments depending on the text -/
+
+/-- `(*DB).Table`: an expression WITH arguments is kept verbatim together with all of them, whatever its spelling —
+    no blank, no backtick needed (`json_each(?)`, `generate_series(?,?)`, `(?)` + sub-query handle) -/
+theorem C01_table_keeps_args {β : Type} (name : List Char) (args : List (Val β)) (h : args ≠ []) :
+    tableDispatch name args = some (.expr name args false) := by
+  have hl : args.length > 0 := List.length_pos_iff.mpr h
+  simp [tableDispatch, tableForm, hl]
+
+private theorem pickSlots_nil_xs {β : Type} (wop : Bool) (fl : List Bool) :
+    (pickSlots (β := β) wop fl []).xs = [] := by
+  cases fl <;> rfl
+
+/-- … hence the values a `Table(name, args...)` call binds are, in EVERY branch of its dispatch, exactly those of the
+    template `clause.Expr{SQL: name, Vars: args}` (none when there are no arguments: a quoted name binds nothing) -/
+theorem C01_table_binds {β : Type} (d : Dialect) (name : List Char) (args : List (Val β)) :
+    tableBinds d name args = flatten d (.expr name args false) := by
+  by_cases h : args = []
+  · subst h
+    have hr : flatten d (Val.expr (β := β) name [] false) = [] := by
+      simp [flatten, spec, annot, pickSlots_nil_xs]
+    rw [hr]
+    simp only [tableBinds, tableDispatch]
+    cases tableForm name ([] : List (Val β)).length <;> simp [flatten, spec, annot, pickSlots_nil_xs, Sp.none]
+  · simp [tableBinds, C01_table_keeps_args name args h]
+
+/-- … and the table expression of a well-formed call is aligned like any other template (corollary of `C01_aligned`) -/
+theorem C01_table_aligned {β : Type} (d : Dialect) (name : List Char) (args : List (Val β)) (h : args ≠ [])
+    (wf : WellFormed d (Val.expr name args false)) :
+    ∃ v, tableDispatch name args = some v ∧ Aligned (render d v) ∧ (render d v).vars = tableBinds d name args :=
+  ⟨_, C01_table_keeps_args name args h, C01_aligned d _ wf, by
+    rw [C01_table_binds]; exact C01_expansion d _ wf⟩
+
+/-- every other entry point that chooses between `clause.Expr` and `clause.NamedExpr` by looking at the text
+    (Raw / Exec, raw joins, Select) hands ALL arguments to the builder it chooses -/
+theorem C01_entry_keeps_args {β : Type} (sql : List Char) (args : List (Val β)) :
+    (rawDispatch sql args).tmplArgs = some args ∧ (rawJoinDispatch sql args).tmplArgs = some args ∧
+    (∀ v, selectDispatch sql args = some v → v.tmplArgs = some args) ∧
+    (∀ v, tableDispatch sql args = some v → args ≠ [] → v.tmplArgs = some args) := by
+  refine ⟨?_, rfl, ?_, ?_⟩
+  · unfold rawDispatch; split <;> rfl
+  · intro v hv; unfold selectDispatch at hv
+    split at hv
+    · cases hv; rfl
+    · split at hv
+      · cases hv; rfl
+      · cases hv
+  · intro v hv h
+    rw [C01_table_keeps_args sql args h] at hv; cases hv; rfl
+
+/-- non-vacuity: the spellings a blank/backtick test would miss, `$n` dialect, after an outer bound value -/
+example :
+    let sub : Val String := .subq ["SELECT".toList, "FROM".toList, "WHERE".toList]
+      [.expr "name".toList [] false, .table "users".toList [] false, .whereC [.expr "age > ?".toList [.scalar "18"] false]]
+    tableForm "json_each(?)".toList 1 = .expr ∧ tableForm "(?)".toList 1 = .expr ∧ tableForm "json_each(?)".toList 0 = .plain ∧
+    tableForm "main.users".toList 0 = .qualified ∧ tableForm "users u".toList 0 = .expr ∧ tableForm [] 0 = .empty ∧
+    (tableBinds .dollar "generate_series(?,?)".toList [Val.scalar "1", .scalar "10"]).map Val.payload? = [some "1", some "10"] ∧
+    (tableBinds .dollar "(?)".toList [sub]).map Val.payload? = [some "18"] ∧
+    ((tableDispatch "(?)".toList [sub]).map fun v => String.ofList (concretize .dollar (render .dollar v).segs))
+      = some "(SELECT name FROM `users` WHERE age > $1)" := by decide
+
+/-- the alias forms (`tableRegexp`, `tableTarget`): `… AS u` anywhere (first one followed by end or comma), `name alias`,
+    nothing for a bare call expression; a name with arguments is an expression and has no target of its own -/
+example :
+    tableTarget "(?) AS u".toList 1 [] = some "u".toList ∧ tableTarget "users u".toList 0 [] = some "u".toList ∧
+    tableTarget "(?) as a, (?) as b".toList 2 [] = some "a".toList ∧ tableTarget "json_each(?)".toList 1 "prev".toList = some "prev".toList ∧
+    tableTarget "json_each(?)".toList 0 [] = some "json_each(?)".toList ∧ tableTarget "main.users".toList 0 [] = some "users".toList ∧
+    tableTarget "users AS u JOIN x".toList 0 [] = some [] ∧ tableTarget "a AS b AS c".toList 0 [] = some "c".toList ∧
+    tableTarget "x\nAS y".toList 0 [] = none := by decide
+
+/-! #### regenerated control-flow paths of every `args ...interface{}` / `...clause.Expression` function
+    (extract/gen_c01_api.go → Gen/BindApi.lean) -/
+
+/-- the path hands the WHOLE parameter on: as a slice (`p`, `p...`, `range p`), or head and tail together
+    (`BuildCondition(p[0], p[1:]...)`), or the head alone where the path condition says there is exactly one -/
+def argPathForwards (a : Gen.ArgPath) : Bool :=
+  a.uses.contains "p" || a.uses.contains "p..." || a.uses.contains "range p" ||
+  (a.uses.contains "p[0]" && (a.uses.contains "p[1:]..." || a.pos.contains "len(p) == 1"))
+
+/-- the path condition says that there are no arguments -/
+def argPathEmpty (a : Gen.ArgPath) : Bool :=
+  a.neg.contains "len(p) > 0" || a.pos.contains "len(p) == 0"
+
+/-- the path reports an error instead of building a statement (`AddError(… args …)`; the ConnPool wrappers of
+    prepare_stmt.go return the error of `prepare`) -/
+def argPathFails (a : Gen.ArgPath) : Bool :=
+  (a.rejects && a.uses.isEmpty) || (a.file == "prepare_stmt.go" && a.neg.contains "err == nil")
+
+/-- callbacks/preload.go `preload`: the path issues no preload query at all (no foreign-key values to look up, or the
+    join-table query failed) — there is no statement the conditions could be missing from -/
+def argPathNoStatement (a : Gen.ArgPath) : Bool :=
+  a.fn == "preload" && a.file == "callbacks/preload.go" &&
+    (a.pos.contains "len(foreignValues) == 0" || a.pos.contains "len(joinForeignValues) == 0" ||
+     a.neg.contains "len(values) != 0" || (a.pos.contains "err != nil" && a.uses.isEmpty))
+
+def argPathOk (a : Gen.ArgPath) : Bool := argPathForwards a || argPathEmpty a || argPathFails a || argPathNoStatement a
+
+/-- **no entry point drops its arguments depending on the text**: on every control-flow path through every function
+    of the statement-building API that has a variadic `…interface{}` / `…clause.Expression` parameter (chain methods,
+    finishers, `BuildCondition`, `AddVar`, `gorm.Expr`, `clause.And/Or/Not`, the prepared-statement ConnPool wrappers;
+    and the stored condition lists of `Preload` in callbacks/preload.go)
+    the parameter is handed on as a whole — unless the path condition itself states that it is empty, or the path ends
+    in an error.  (The m9 shape — arguments forwarded only under a condition on the string — leaves a path with
+    neither.) -/
+theorem C01_api_args_forwarded : ∀ a ∈ Gen.argPaths, argPathOk a = true := by decide
+
+/-- the functions this is about — a new entry point with arguments shows up here -/
+theorem C01_api_fns :
+    Gen.apiFns.map (fun f => (f.fn, f.param)) =
+      [("preload", "conds"), ("preloadEntryPoint", "associationsConds"),
+       ("DB.Assign", "attrs"), ("DB.Attrs", "attrs"), ("DB.Clauses", "conds"), ("DB.Distinct", "args"), ("DB.Having", "args"),
+       ("DB.InnerJoins", "args"), ("DB.Joins", "args"), ("DB.Not", "args"), ("DB.Or", "args"), ("DB.Preload", "args"),
+       ("DB.Raw", "values"), ("DB.Select", "args"), ("DB.Table", "args"), ("DB.Where", "args"), ("joins", "args"),
+       ("And", "exprs"), ("Not", "exprs"), ("Or", "exprs"),
+       ("DB.Delete", "conds"), ("DB.Exec", "values"), ("DB.Find", "conds"), ("DB.First", "conds"), ("DB.FirstOrCreate", "conds"),
+       ("DB.FirstOrInit", "conds"), ("DB.Last", "conds"), ("DB.Take", "conds"), ("DB.assignInterfacesToValue", "values"),
+       ("Expr", "args"),
+       ("PreparedStmtDB.ExecContext", "args"), ("PreparedStmtDB.QueryContext", "args"), ("PreparedStmtDB.QueryRowContext", "args"),
+       ("PreparedStmtTX.ExecContext", "args"), ("PreparedStmtTX.QueryContext", "args"), ("PreparedStmtTX.QueryRowContext", "args"),
+       ("Statement.AddVar", "vars"), ("Statement.BuildCondition", "args")] := by decide
+
+/-- the source of `(*DB).Table` has exactly the dispatch `tableForm` transcribes: ONE path keeps the arguments, its
+    condition is `blank ∨ backtick ∨ len(args) > 0`; on the other path all three are false -/
+theorem C01_table_dispatch_source :
+    (Gen.argPaths.filter (fun a => a.fn == "DB.Table")).map (fun a => (a.pos, a.neg, a.uses)) =
+      [ (["strings.Contains(name, \" \") || strings.Contains(name, \"`\") || len(p) > 0"], [], ["p"]),
+        ([], ["strings.Contains(name, \" \")", "strings.Contains(name, \"`\")", "len(p) > 0"], []) ] := by decide
+
+/-- the finishers with inline conditions all have the same three paths: `BuildCondition(conds[0], conds[1:]...)`
+    under `len(conds) > 0` (whatever comes back), nothing when there are none -/
+theorem C01_inline_conds_source :
+    ∀ fn ∈ ["DB.First", "DB.Take", "DB.Last", "DB.Find", "DB.Delete"],
+      (Gen.argPaths.filter (fun a => a.fn == fn)).map (fun a => (a.pos, a.neg, a.uses)) =
+        [ (["len(p) > 0", "len(exprs) > 0"], [], ["p[1:]...", "p[0]"]),
+          (["len(p) > 0"], ["len(exprs) > 0"], ["p[1:]...", "p[0]"]),
+          ([], ["len(p) > 0"], []) ] := by decide
+
+
+/-- a template literal whose text is not a constant and not a quoted identifier -/
+def templateVariable (t : Gen.TemplateSite) : Bool :=
+  !(t.sql.toList.head? == some '"') && !(containsSub t.sql.toList "Quote(".toList)
+
+/-- every place in gorm / gorm/callbacks that wraps a VARIABLE text into `clause.Expr{…}` / `clause.NamedExpr{…}`
+    gives it the arguments that travel with that text (no template is built from caller text without its `Vars`) … -/
+theorem C01_template_sites_carry_vars : ∀ t ∈ Gen.templateSites, templateVariable t = true → t.vars ≠ "" := by decide
+
+/-- … and these places are: the text/argument pairs the model's entry points transcribe (`rawDispatch` Raw/Exec,
+    `selectDispatch`, `tableDispatch`, `rawJoinDispatch` join.Name/join.Conds, `buildCondStr`, `Val.rsub` AddVar,
+    `joinOnExpr` onSQL/vars, gorm.Expr) plus the many2many join-table condition of association.go -/
+theorem C01_template_sites :
+    (Gen.templateSites.filter templateVariable).map (fun t => (t.site, t.sql, t.vars)) =
+      [ ("association.go:Association.buildCondition", "strings.Replace(joinStmt.SQL.String(), \"WHERE \", \"\", 1)", "joinStmt.Vars"),
+        ("callbacks/query.go:BuildQuerySQL", "onSQL", "vars"),
+        ("callbacks/query.go:BuildQuerySQL", "join.Name", "join.Conds"),
+        ("callbacks/query.go:BuildQuerySQL", "join.Name", "join.Conds"),
+        ("chainable_api.go:DB.Raw", "sql", "values"), ("chainable_api.go:DB.Raw", "sql", "values"),
+        ("chainable_api.go:DB.Select", "v", "args"), ("chainable_api.go:DB.Select", "v", "args"), ("chainable_api.go:DB.Select", "v", "args"),
+        ("chainable_api.go:DB.Table", "name", "args"),
+        ("finisher_api.go:DB.Exec", "sql", "values"), ("finisher_api.go:DB.Exec", "sql", "values"),
+        ("gorm.go:Expr", "expr", "args"),
+        ("statement.go:Statement.AddVar", "sql", "vars"), ("statement.go:Statement.AddVar", "sql", "vars"),
+        ("statement.go:Statement.BuildCondition", "s", "args"), ("statement.go:Statement.BuildCondition", "s", "args"),
+        ("statement.go:Statement.BuildCondition", "s", "args") ] := by decide
 
 end Gorm
